@@ -94,7 +94,17 @@ static Circuit loop_circuit(Rng &rng, Stats &st, uint64_t &reps_out, bool huge) 
     if (huge) reps = rng.pick(std::vector<uint64_t>{1000, 1000000});
     reps_out = reps;
     c.append_repeat_block(reps, body, "");
-    // after the loop: final readout with detectors looking back into the last iteration
+    // after the loop: feedback reaching back into (or before) the loop, then a final readout
+    if (rng.chance(0.6)) {
+        size_t nfb = 1 + rng.below(3);
+        for (size_t i = 0; i < nfb; i++) {
+            uint32_t lb = (uint32_t)(1 + rng.below((uint64_t)t + 4));
+            if ((uint64_t)lb > c.count_measurements()) lb = 1;
+            if (c.count_measurements() == 0) break;
+            c.safe_append_u(rng.chance(0.5) ? "CX" : "CY", {TARGET_RECORD_BIT | lb, (uint32_t)rng.below(n)});
+        }
+        st.hit("post_loop_feedback");
+    }
     c.safe_append_u("M", all);
     c.safe_append_u("DETECTOR", {TARGET_RECORD_BIT | 1u});
     st.hit("template." + std::to_string(tmpl));
